@@ -44,9 +44,7 @@ func emit(p *interpgen.Program) interpgen.Result {
 	if b.Tx != nil && !bytes.Equal(b.Tx.Bytes(), txBefore) {
 		c.Violate("Engine.Execute/transaction-serialisation-modified", "tx bytes differ after execution", p)
 	}
-	if b.Tx != nil && p.HasPrev && res.Obs != "panic" && res.Err != "" {
-		_ = res
-	}
+	checkPrevoutRecord(p, b)
 	if res.Obs == "panic" {
 		c.Violate("Engine.Execute/panic", res.Err, p)
 	}
@@ -87,6 +85,15 @@ func runC05() {
 		stride, nRandom, nP2SH, nVec, maxLen = 7, 8000, 1000, 100000, 40
 	}
 	interpgen.Matrix(func(p *interpgen.Program) { res := emit(p); refCheck(p, res) }, stride)
+	interpgen.BigNumSweep(func(p *interpgen.Program) { emit(p) })
+	interpgen.Limits(func(p *interpgen.Program) { emit(p) }, c.Thorough())
+	nFlow := 1500
+	if c.Thorough() {
+		nFlow = 40000
+	}
+	for i := 0; i < nFlow; i++ {
+		emit(interpgen.Flow(r))
+	}
 	for i := 0; i < nRandom; i++ {
 		emit(interpgen.Random(r, maxLen))
 	}
@@ -120,7 +127,7 @@ func runC05() {
 	c.Stats.Extra["node_vectors_skipped_signature_ops"] = skipped
 	c.Stats.Extra["node_vectors_used"] = used
 	c.Stats.Extra["node_vectors_impl_agrees"] = agree
-	c.Stats.Rule = "opcode x edge-operand matrix (31 operands; all unary opcodes and all shift counts 0..8n+1 for n in {0,1,2,3,8} always; binary/ternary combinations every 131st in quick, every 7th in thorough; 8 flag sets over both eras), grammar-generated programs over the full opcode alphabet with nested IF/NOTIF/ELSE/ENDIF, OP_RETURN placement, tx contexts for CLTV/CSV, P2SH pairs, and the signature-free node vectors of script_tests.json (evaluated on the model AND compared with the node's expected verdict). distinct = distinct (scripts, flags, context); non-trivial = at least one instruction completed"
+	c.Stats.Rule = "targeted families: big-number operand sweep (index/position/size/count opcodes x numbers around 2^31, 2^32, 2^63, 2^64, 2^72 and their negatives), programs sitting on every pre-Genesis limit (op count with executed and with skipped opcodes, stack depth incl. alt stack, element size via push/CAT/NUM2BIN, script size, number length) in both eras, 1500 flow-control programs (IF/NOTIF/ELSE/ENDIF/RETURN/VERIF alphabet split between unlocking and locking script); then: opcode x edge-operand matrix (31 operands; all unary opcodes and all shift counts 0..8n+1 for n in {0,1,2,3,8} always; binary/ternary combinations every 131st in quick, every 7th in thorough; 8 flag sets over both eras), grammar-generated programs over the full opcode alphabet with nested IF/NOTIF/ELSE/ENDIF, OP_RETURN placement, tx contexts for CLTV/CSV, P2SH pairs, and the signature-free node vectors of script_tests.json (evaluated on the model AND compared with the node's expected verdict). distinct = distinct (scripts, flags, context); non-trivial = at least one instruction completed"
 }
 
 // opcode arity table for the frame check: how many items of the data stack an opcode may touch
@@ -230,4 +237,119 @@ func opcodesOf(s []byte) []byte {
 		}
 	}
 	return ops
+}
+
+// checkPrevoutRecord: the only thing execution may record on the caller's transaction is the spent
+// output's value and script on the checked input — afterwards they must be exactly those.
+func checkPrevoutRecord(p *interpgen.Program, b *interpgen.Built) {
+	if b.Tx == nil || !p.HasPrev || len(b.Tx.Inputs) == 0 {
+		return
+	}
+	in := b.Tx.Inputs[0]
+	if in.PreviousTxScript == nil {
+		return // rejected before the record was made
+	}
+	if !bytes.Equal(*in.PreviousTxScript, p.Lock) || in.PreviousTxSatoshis != 1000 {
+		c.Violate("Engine.Execute/input-records-something-else-than-the-spent-output",
+			fmt.Sprintf("PreviousTxScript %x (spent output script %x), PreviousTxSatoshis %d (spent 1000)", []byte(*in.PreviousTxScript), p.Lock, in.PreviousTxSatoshis), p)
+	}
+}
+
+// buffersOnly runs a program on the implementation with all caller-buffer predicates but without a
+// model case (signature opcodes under a transaction context; the signature model is C06's).
+func buffersOnly(p *interpgen.Program) {
+	rec := &interpgen.Recorder{}
+	b := interpgen.Build(p, rec)
+	var txBefore []byte
+	if b.Tx != nil {
+		txBefore = b.Tx.Bytes()
+	}
+	res := interpgen.RunBuilt(b, rec)
+	c.Tally(p.Kind + "/go-only/" + res.Obs)
+	if res.Obs == "panic" {
+		c.Violate("Engine.Execute/panic", res.Err, p)
+	}
+	if !bytes.Equal(*b.Lock, p.Lock) {
+		c.Violate("Engine.Execute/caller-locking-script-modified", fmt.Sprintf("%x -> %x", p.Lock, []byte(*b.Lock)), p)
+	}
+	if !bytes.Equal(*b.Unlock, p.Unlock) {
+		c.Violate("Engine.Execute/caller-unlocking-script-modified", fmt.Sprintf("%x -> %x", p.Unlock, []byte(*b.Unlock)), p)
+	}
+	if b.Tx != nil && !bytes.Equal(b.Tx.Bytes(), txBefore) {
+		c.Violate("Engine.Execute/transaction-serialisation-modified", "tx bytes differ after execution", p)
+	}
+	checkPrevoutRecord(p, b)
+	c.Case("", p, key(p), true)
+}
+
+// SigShapes: programs that reach the signature opcodes with a full transaction context using junk
+// signatures and keys (no encoding flags): exercises script-code construction (code separators in
+// either script, early OP_RETURN in the unlocking script, signature pushes inside the script) on
+// the implementation. The verdict is not interesting here; panics and caller-buffer changes are.
+func sigShapes(r *common.Rand, emitp func(*interpgen.Program), n int) {
+	junkSig := func() []byte { return append(r.Bytes(8+r.Intn(64)), []byte{0x01, 0x41, 0x02, 0xc3, 0x00}[r.Intn(5)]) }
+	junkKey := func() []byte {
+		k := r.Bytes(33)
+		k[0] = []byte{2, 3, 4, 6}[r.Intn(4)]
+		if r.Chance(20) {
+			k = r.Bytes(r.Intn(70))
+		}
+		return k
+	}
+	for i := 0; i < n; i++ {
+		sig, key := junkSig(), junkKey()
+		var unlock, lock []byte
+		// unlocking script: pushes, optionally NOPs / CODESEPARATOR / early RETURN
+		for k := r.Intn(3); k > 0; k-- {
+			unlock = append(unlock, interpgen.Push(r.Bytes(1+r.Intn(3)))...)
+		}
+		unlock = append(unlock, interpgen.Push(sig)...)
+		if r.Chance(40) {
+			unlock = append(unlock, interpgen.Push(key)...)
+		}
+		for k := r.Intn(4); k > 0; k-- {
+			unlock = append(unlock, 0x61)
+		}
+		if r.Chance(45) {
+			unlock = append(unlock, 0xab)
+		}
+		if r.Chance(35) {
+			unlock = append(unlock, 0x6a)
+		}
+		// locking script: separators at various positions, one of the four signature opcodes
+		for k := r.Intn(3); k > 0; k-- {
+			lock = append(lock, []byte{0x61, 0xab, 0x61}[r.Intn(3)])
+		}
+		if r.Chance(60) {
+			lock = append(lock, interpgen.Push(key)...)
+		}
+		switch r.Intn(5) {
+		case 0:
+			lock = append(lock, 0xac)
+		case 1:
+			lock = append(lock, 0xad, 0x51)
+		case 2: // 1-of-1 multisig around the pushed things
+			lock = append(append([]byte{0x51}, interpgen.Push(junkKey())...), 0x51, 0xae)
+			unlock = append([]byte{0x00}, unlock...)
+		case 3:
+			lock = append(lock, 0x76, 0xa9, 0x75, 0xac)
+		default:
+			lock = append(lock, 0xab, 0xac, 0xab)
+		}
+		if r.Chance(30) {
+			lock = append(lock, interpgen.Push(sig)...)
+			lock = append(lock, 0x75)
+		}
+		p := &interpgen.Program{Unlock: unlock, Lock: lock, HasTx: true, HasPrev: true, TxVersion: 1, InSeq: 0xffffffff, Kind: "sig-shape"}
+		if r.Chance(55) {
+			p.Flags |= interpgen.FGenesis
+		}
+		if r.Chance(40) {
+			p.Flags |= interpgen.FForkID
+		}
+		if r.Chance(15) {
+			p.Flags |= interpgen.FNullFail
+		}
+		emitp(p.Fix())
+	}
 }
